@@ -36,7 +36,7 @@ import (
 var Check = &ev.Check{
 	ID:    "C18",
 	Level: "model_checking",
-	Rule: "scenarios: (codec) every unordered pair (thorough: also triples over the core ops) of operations from a 21-operation alphabet {Encode (also into a destination that breaks after 5 bytes), stream write into one that breaks after 9, stream walk of a source that breaks, stream walk / Decode of a struct holding a binary above the 1 MiB threshold followed by more fields, Decode+materialise, Decode+EvaluateValue, EncodeEnveloped, DecodeEnveloped, DecodeRequest+EncodeResponse, " +
+	Rule: "scenarios: (codec) every unordered pair (thorough: also triples over the core ops) of operations from a 22-operation alphabet {a request of the wrong envelope type (rejected), Encode (also into a destination that breaks after 5 bytes), stream write into one that breaks after 9, stream walk of a source that breaks, stream walk / Decode of a struct holding a binary above the 1 MiB threshold followed by more fields, Decode+materialise, Decode+EvaluateValue, EncodeEnveloped, DecodeEnveloped, DecodeRequest+EncodeResponse, " +
 		"ReadRequest+WriteResponse (decoding and field-skipping body, one-byte empty request), DecodeRequest of the one-byte empty request, stream primitive walk, generated ToWire->Encode, Decode->FromWire, generated stream Encode / Decode} on distinct values, one per thread; " +
 		"(sequential) every ordered pair run back to back on one thread; (frame) K in {2,3} concurrent Sends with distinct payloads on one frame.Client against an echo frame.Server; (fanout) MultiServiceGenerator.Generate over 2..3 generators with disjoint and overlapping files. " +
 		"schedules: all interleavings at scheduling points (every shim mutex/waitgroup/atomic/pool operation and every harness Read/Write/ReadAt) with at most 2 preemptions, and every sync.Pool.Get answer (fresh object or any pooled one; non-default answers count as deviations, total deviation bound 2). " +
@@ -191,6 +191,13 @@ func ops(k int) []op {
 			var buf bytes.Buffer
 			rerr := rw.WriteResponse(wire.Reply, vio.YieldWriter{W: &buf}, enveloper{hs})
 			return br.v.Key() + "|" + hexs(buf.Bytes()) + errs(rerr)
+		}},
+		{"ReadRequest(wrong type)", func() string {
+			// a OneWay request where a Call is expected: rejected, and nothing else may change
+			ow := tbin.EncodeStrict(tbin.Envelope{Name: env.Name, Type: 4, SeqID: env.SeqID}, enc)
+			br := &bodyReader{}
+			_, err := binary.Default.ReadRequest(context.Background(), wire.Call, vio.YieldReader{R: bytes.NewReader(ow)}, br)
+			return br.v.Key() + errs(err)
 		}},
 		{"ReadRequest(skip)", func() string {
 			br := &bodyReader{skip: true}
@@ -749,7 +756,7 @@ func run(w *ev.W) {
 	var core []int
 	for i, o := range a {
 		switch o.name {
-		case "Encode", "Decode", "Decode+EvaluateValue", "DecodeRequest", "ReadRequest", "ReadRequest(skip)", "ReadRequest(empty)", "gen.Decode+FromWire", "gen.Decode(stream)", "Encode(failing writer)":
+		case "Encode", "Decode", "Decode+EvaluateValue", "DecodeRequest", "ReadRequest", "ReadRequest(wrong type)", "ReadRequest(skip)", "ReadRequest(empty)", "gen.Decode+FromWire", "gen.Decode(stream)", "Encode(failing writer)":
 			core = append(core, i)
 		}
 	}
